@@ -40,6 +40,26 @@ hand):
                'ctx'  set_context(s, d) then get_nearest_particles
                'all'  (cache) set_context; NeighborCache.find_all_neighbors()
   pair_order 0 dst-major, 1 reversed, 2 src-major
+Optional keys (coverage audit; absent = the behaviour above):
+  domain     {per:[bx,by,bz], n_layers, lo:[3], hi:[3]}: a periodic
+             DomainManager is passed to the constructor; update_domain() then
+             wraps the particles and appends ghost copies, which are ordinary
+             sources/destinations for the oracle (step indices always refer
+             to real particles, which come first)
+  steps      further ops {op:'noop', arr} (nothing changes, update again) and
+             {op:'usecache', arr, on} (set_use_cache(on), no update at all);
+             a step may carry nodomain:true: update() without update_domain()
+  styles     'raw'  set_context; NeighborCache.get_neighbors of nnps.cache
+             'hall' gnp for every second particle, find_all_neighbors, gnp all
+             'pre'  get_nearest_particles_no_cache(..., prealloc=True)
+             'bf'   brute_force_neighbors (never sorted)
+             'ext'  a NeighborCache built by hand on the NNPS (as the
+                    upstream tests do): update(); set_context; get_neighbors
+  pair_mod   per phase m: when m>0 the pairs with index%3 == m-1 are not
+             queried in that phase (caches stay partly unfilled)
+  qorder     1: destination particles are queried odd indices descending,
+             then even ones ascending
+  shared_nb  one UIntArray is used for cached and uncached queries alike
 """
 import json
 import math
@@ -66,11 +86,42 @@ RULE = ('cases = one of the 12 CPU NNPS classes with drawn tuning knobs x dim '
         'Non-trivial = at least one query whose true neighbour set is '
         'neither empty nor the whole source AND (two arrays occupying '
         'different cell sets OR a history step OR a degenerate family); '
-        'distinct by case hash.')
+        'distinct by case hash.  Coverage audit: constructor keywords '
+        'fixed_h (constant h only) and ghost_layers for every class, '
+        'ZOrderNNPS(asymmetric); out-of-plane coordinates a non-zero '
+        'constant; rs*hmax < 1e-6 (cell-size fall-back); a domain 70000 '
+        'cells long, 3000 cells per axis in 3-D (sparse indices only); '
+        'H=6 for the extended classes; thorough: now and then one array of '
+        '1500 particles; a periodic DomainManager (1-3 '
+        'periodic axes, n_layers 1-3) whose ghosts are sources and '
+        'destinations; steps noop, set_use_cache(on/off), update() without '
+        'update_domain() (moves/adds/removals while h is one constant); '
+        'query styles NeighborCache.get_neighbors on the internal and on a '
+        'hand-made cache, find_all_neighbors on a half-filled cache, '
+        'get_nearest_particles_no_cache(prealloc=True), '
+        'brute_force_neighbors; a third of the pairs skipped per phase; '
+        'permuted query order; one neighbour array shared by cached and '
+        'uncached queries; clusters of up to 256 (thorough 1600) particles '
+        '(cache buffer growth).')
 ASSUMPTIONS = [
     'pairs with |d2 - c2| <= 8*eps*c2, c = radius_scale*max(h_i,h_j), may '
     'go either way',
-    'coordinates of axes >= dim are zero (a 1-D/2-D simulation)',
+    'coordinates of axes >= dim are the same for all particles: zero or '
+    'one non-zero constant (a 1-D/2-D simulation)',
+    'fixed_h=True is generated only with one constant h (documented as '
+    '"constant cell sizes"); ZOrderNNPS(H != 1) has no documented meaning '
+    '(the keyword exists for ExtendedZOrderNNPS) and is not generated',
+    'update() without update_domain() only after moves, additions and '
+    'removals while every h ever present equals one constant and without a '
+    'periodic domain (cell size, hmin and ghosts belong to the domain '
+    'manager)',
+    'a domain 70000 cells long only for the classes with a sparse index '
+    '(linked list, box sort, hashes, trees); CellIndexingNNPS packs ids and '
+    'cells into 32 bits, the Morton tables are dense in the key range',
+    'periodic ghosts copy the gid of their original: with sort_gids the '
+    'order among equal gids is free',
+    'h = 0 or denormal is not generated (log2/division by h in the '
+    'stratified classes; no documented meaning)',
     'grid extent bounded (<= 48 coarse cells per axis, dense Morton tables '
     '<= 2^22 keys) so that no class exceeds its representable capacity; '
     'RuntimeError "too many cells"/"Number of cells is negative" on a grid '
@@ -87,7 +138,11 @@ ASSUMPTIONS = [
     '1+3*ceil(log2(extent/(radius_scale*hmin))): more than 512 cells of the '
     'smallest h per axis are not representable (it then crashes or drops '
     'neighbours instead of raising); treated like the other capacity '
-    'limits, the generator stays below 480',
+    'limits, the generator stays below 480; with rs*hmax < 1e-6 the cell '
+    'size falls back to 1.0 and the extent of a point-like set to one cell, '
+    'i.e. far more than 512 cells of rs*hmin (segfault, replay '
+    '/var/tmp/audC01/replays/04b5eb820a0a.json): tiny h is not generated '
+    'for this class (label excluded:tiny_h_stratsfc_capacity)',
     'StratifiedHashNNPS scans (2*ceil(H*h_dst/h_src_level)+1)^3 boxes per '
     'query; to bound run time the generator keeps H*hmax/hmin <= 24 (less '
     'for cases with many queries) for this class; larger ratios are the '
@@ -116,12 +171,19 @@ CLASSES = {
 }
 # knob name -> values, default (benign) value first: Hypothesis shrinks
 # towards it, so a non-default value survives shrinking only when needed
+GHOSTS = [1, 0, 2, 3]
+FIXED = [False, False, False, False, True]
 KNOBS = {
     'LinkedListNNPS': {}, 'BoxSortNNPS': {}, 'DictBoxSortNNPS': {},
-    'CellIndexingNNPS': {}, 'ZOrderNNPS': {},
+    'CellIndexingNNPS': {},
+    # ZOrderNNPS takes H/asymmetric only to hand them on to its subclass;
+    # asymmetric is accepted and has no documented effect, H != 1 has no
+    # documented meaning for the plain class and is not generated
+    'ZOrderNNPS': {'asymmetric': [False, True]},
     'SpatialHashNNPS': {'table_size': TABLES},
-    'ExtendedSpatialHashNNPS': {'H': [3, 1, 2, 4], 'table_size': TABLES},
-    'ExtendedZOrderNNPS': {'H': [3, 1, 2, 4], 'asymmetric': [False, True]},
+    'ExtendedSpatialHashNNPS': {'H': [3, 1, 2, 4, 6], 'table_size': TABLES},
+    'ExtendedZOrderNNPS': {'H': [3, 1, 2, 4, 6],
+                           'asymmetric': [False, True]},
     'StratifiedHashNNPS': {'H': [1, 2, 3, 4], 'num_levels': [1, 2, 3, 4],
                            'table_size': TABLES},
     'StratifiedSFCNNPS': {'num_levels': [1, 2, 3, 4]},
@@ -130,7 +192,28 @@ KNOBS = {
     'CompressedOctreeNNPS': {'leaf_max_particles': LEAVES,
                              'test_parallel': [False, True]},
 }
+for _c, _k in KNOBS.items():
+    # constructor keywords every class takes (DictBoxSortNNPS has no
+    # fixed_h); ghost_layers is documented as unused in serial runs
+    _k['ghost_layers'] = GHOSTS
+    if _c != 'DictBoxSortNNPS':
+        _k['fixed_h'] = FIXED
 DENSE = ('ZOrderNNPS', 'ExtendedZOrderNNPS', 'StratifiedSFCNNPS')
+# classes whose index is sparse (hash table, dictionary, linked list with a
+# one-dimensional head array, tree): a domain 70000 cells long (3000 cells
+# along each of three axes) is within their capacity.  CellIndexingNNPS packs particle id and cell ids into 32
+# bits and the dense Morton tables grow with the key range: not generated.
+LONG_OK = ('LinkedListNNPS', 'BoxSortNNPS', 'DictBoxSortNNPS',
+           'SpatialHashNNPS', 'ExtendedSpatialHashNNPS', 'OctreeNNPS',
+           'CompressedOctreeNNPS')
+OOP = [0.0, 5.0, -1234.5]
+OLD_STYLES = [['ctx'], ['gnp'], ['gnp', 'ctx'], ['ctx', 'gnp'], ['all'],
+              ['all', 'gnp'], ['gnp', 'all'], ['ctx', 'all', 'gnp']]
+NEW_STYLES = [['ctx'], ['pre'], ['bf', 'ctx'], ['raw'], ['hall'],
+              ['hall', 'raw'], ['gnp', 'pre', 'all'], ['ext'],
+              ['ext', 'gnp'], ['raw', 'bf'], ['pre', 'hall']]
+API_STYLES = ('raw', 'hall', 'pre', 'bf', 'ext')
+ENVS = ['oop', 'periodic', 'tiny', 'long', 'periodic', 'oop+periodic']
 
 ESSENTIAL_LABELS = {'all': [
     'empty_array', 'on_face_lattice', 'on_face_grid', 'far_offset',
@@ -138,9 +221,17 @@ ESSENTIAL_LABELS = {'all': [
     'gids_valid', 'style:gnp', 'style:ctx', 'style:all', 'fresh_compared',
     'op:move', 'op:scaleh', 'op:add', 'op:remove', 'op:empty', 'op:refill',
     'new_hmax', 'dim1', 'dim2', 'dim3',
-] + ['fam:' + f for f in FAMILIES] + sorted(CLASSES.values()) + sorted(
+    # coverage audit
+    'oop_const', 'periodic_domain', 'periodic_ghosts', 'tiny_h',
+    'long_domain', 'update_without_domain', 'op:noop', 'op:usecache',
+    'cache_switched_on', 'cache_switched_off', 'style:raw', 'style:hall',
+    'style:pre', 'style:bf', 'style:ext', 'pairs_skipped', 'query_permuted',
+    'shared_nbr_array', 'view_then_uncached', 'cache_growth', 'cache_add',
+    'boosted', 'dense_stencil',
+] + ['fam:' + f for f in FAMILIES] + sorted(CLASSES.values()) + sorted(set(
     'knob:%s=%s' % (k, v) for kn in KNOBS.values() for k, vs in kn.items()
-    for v in vs)}
+    for v in vs))}
+ESSENTIAL_LABELS['thorough'] = ESSENTIAL_LABELS['all'] + ['big_array']
 
 SHARD_TIMEOUT = {'quick': 1500, 'thorough': 6 * 3600}
 HANG_S = 90
@@ -200,6 +291,25 @@ def tags_of(case):
         t.add('no_particles')
     if len(arrs) > 1:
         t.add('multi_array')
+    # ---- coverage-audit classes
+    if any(v != 0.0 for a in arrs for k in 'xyz'[case['dim']:]
+           for v in a[k]):
+        t.add('oop')
+    if case.get('domain'):
+        t.add('periodic')
+    if hs and case['rs'] * max(hs) < 1e-6:
+        t.add('tiny_h')
+    if case.get('long'):
+        t.add('long')
+    if any(s.get('nodomain') for s in case.get('steps', [])):
+        t.add('nodomain')
+    for ph in case.get('styles', []):
+        for y in ph:
+            if y in API_STYLES:
+                t.add('sty:' + y)
+    if case.get('shared_nb') or case.get('qorder') or \
+            any(case.get('pair_mod', [])):
+        t.add('qopts')
     if case.get('cache'):
         t.add('cache')
         if case['styles'] and case['styles'][0] and \
@@ -312,9 +422,10 @@ def subdiv(cls, knobs):
     return 1.0
 
 
-def extent_ok(cls, knobs, dim, E, c0, rs, hmax_lb, hmin_lb):
-    """E: box size per axis in units of c0.  Conservative capacity test."""
-    emax = max(E[:dim])
+def extent_ok(cls, knobs, dim, E, c0, rs, hmax_lb, hmin_lb, pad=0.0):
+    """E: box size per axis in units of c0 (pad: thickness of the periodic
+    ghost layers, same unit).  Conservative capacity test."""
+    emax = max(E[:dim]) + pad
     coarse = emax * c0 / (rs * hmax_lb) * 1.03 + 2
     if coarse > 50.0:
         return False
@@ -380,19 +491,36 @@ def abstract_strategy(draw, cls, big):
         steps.append({
             'op': draw(st.sampled_from(['jitter', 'teleport', 'face',
                                         'scaleh', 'add', 'remove', 'empty',
-                                        'refill'])),
+                                        'refill', 'noop', 'usecache'])),
             'arr': draw(st.integers(0, narr - 1)),
             'k': draw(st.sampled_from([1, 2, 3, 5, 8, 1000])),
             'g': [draw(i16) for _ in range(3)],
             's': [draw(i16) for _ in range(3)],
             'f': draw(st.sampled_from([2.0, 0.5, 1.5, 3.0, 0.1, 10.0])),
             'fam': draw(st.sampled_from(['uniform', 'cluster', 'lattice'])),
+            'nodomain': draw(st.sampled_from([False, False, True])),
         })
     sp['steps'] = steps
-    sp['styles'] = [draw(st.sampled_from(
-        [['ctx'], ['gnp'], ['gnp', 'ctx'], ['ctx', 'gnp'], ['all'],
-         ['all', 'gnp'], ['gnp', 'all'], ['ctx', 'all', 'gnp']]))
-        for _ in range(nsteps + 1)]
+    sp['styles'] = [draw(st.sampled_from(OLD_STYLES))
+                    for _ in range(nsteps + 1)]
+    # ---- coverage audit: further ways of asking and further environments
+    sp['api'] = draw(st.sampled_from([False, False, True]))
+    sp['styles_api'] = [draw(st.sampled_from(NEW_STYLES))
+                        for _ in range(nsteps + 1)]
+    sp['pair_mod'] = [draw(st.sampled_from([0, 0, 1, 2, 3]))
+                      for _ in range(nsteps + 1)]
+    sp['qorder'] = draw(st.sampled_from([0, 1]))
+    sp['shared_nb'] = draw(st.booleans())
+    sp['env'] = draw(st.sampled_from(['none'] * 14 + ENVS))
+    sp['env_forced'] = draw(st.sampled_from(ENVS))
+    sp['oopv'] = [draw(st.sampled_from(OOP[1:])) for _ in range(2)]
+    sp['per'] = draw(st.integers(1, 7))
+    sp['n_layers'] = draw(st.sampled_from([2.0, 1.0, 3.0, 1.5]))
+    sp['boost'] = draw(st.sampled_from([1, 1, 1, 1, 4]))
+    # thorough tier: now and then one array of 1500 particles on its own
+    # (deep trees, many nodes per level for the parallel builders, long
+    # collision chains)
+    sp['bign'] = draw(st.sampled_from([0] * 19 + [1500])) if big else 0
     if cls == 'LinkedListNNPS' and draw(st.integers(0, 39)) == 39:
         sp['huge'] = True
     return sp
@@ -473,6 +601,51 @@ def materialize(sp):
     cls, dim, rs = sp['cls'], sp['dim'], sp['rs']
     knobs = dict(sp['knobs'])
     notes = []
+    # ---- environment of the case (coverage audit)
+    env = sp.get('env', 'none')
+    if sp.get('env_force'):
+        env = sp.get('env_forced', env)
+    env = set(env.split('+'))
+    if sp.get('dense'):
+        # stencil shard: every array well filled, constant h, a box of a
+        # few cells per axis, so that every cell of the search stencil
+        # (corners included) holds true neighbours of some particle
+        sp = dict(sp, hmode='const', boost=1, bign=0, huge=False,
+                  E=[min(max(e, 2), 4) for e in sp['E']],
+                  arrays=[dict(a, n=max(a['n'], 55),
+                               fam=(a['fam'] if a['fam'] in (
+                                   'uniform', 'lattice') else 'uniform'))
+                          for a in sp['arrays']])
+        env = set()
+        notes.append('dense_stencil')
+    if sp.get('huge'):
+        env = set()
+    if 'long' in env and (cls not in LONG_OK or (
+            dim == 3 and cls == 'LinkedListNNPS')):
+        # (3000^3 cells are more than the 2^28 the linked list documents;
+        # that rejection is the `huge` case)
+        env.discard('long')
+        env.add('oop' if dim < 3 else 'periodic')
+    if 'oop' in env and dim == 3:
+        env.discard('oop')
+        env.add('tiny')
+    if 'long' in env:
+        env.discard('periodic')
+    if 'tiny' in env and cls == 'StratifiedSFCNNPS':
+        # the cell-size fall-back (1.0) makes extent/(rs*hmin) exceed the
+        # 512 finest cells per axis this class can represent (ASSUMPTIONS)
+        env.discard('tiny')
+        env.add('periodic' if dim == 3 else 'oop')
+        notes.append('excluded:tiny_h_stratsfc_capacity')
+    env -= set(sp.get('env_off', []))
+    periodic = 'periodic' in env
+    bign = int(sp.get('bign') or 0)
+    if bign and not periodic and not sp.get('huge'):
+        a0 = dict(sp['arrays'][0], n=bign)
+        if a0['fam'] in ('empty', 'single'):
+            a0['fam'] = 'uniform'
+        sp = dict(sp, arrays=[a0], steps=sp['steps'][:2], boost=1)
+        notes.append('big_array')
     fams = []
     for a in sp['arrays']:
         f = a['fam']
@@ -483,11 +656,24 @@ def materialize(sp):
         fams.append(f)
     ns = []
     for a, f in zip(sp['arrays'], fams):
-        ns.append(0 if f == 'empty' else 1 if f == 'single' else a['n'])
+        n = 0 if f == 'empty' else 1 if f == 'single' else a['n']
+        if f in ('cluster', 'coincident') and sp.get('boost', 1) > 1 and \
+                not periodic:
+            n *= sp['boost']
+            notes.append('boosted')
+        if periodic:
+            # every particle may get 3^dim - 1 ghost copies
+            n = min(n, {1: 34, 2: 34, 3: 13}[dim])
+        ns.append(n)
+    if knobs.get('fixed_h'):
+        # 'constant smoothing lengths' is what fixed_h is documented for
+        sp = dict(sp, hmode='const')
+    if 'tiny' in env:
+        sp = dict(sp, h0=1e-8)
     hs = [_hvals(sp, a, n, 0) for a, n in zip(sp['arrays'], ns)]
     allh = [v for h in hs for v in h]
     nq = float(sum(ns) + 16 * len(sp['steps'])) * len(ns) * 2 * \
-        (len(sp['steps']) + 1)
+        (len(sp['steps']) + 1) * (3.0 ** dim if periodic else 1.0)
     if cls == 'StratifiedHashNNPS' and allh and not cost_ok(
             knobs, max(allh), min(allh), nq):
         # bounded query cost for this class (see ASSUMPTIONS)
@@ -499,14 +685,26 @@ def materialize(sp):
     hmin = min(allh) if allh else sp['h0']
     c0 = rs * hmax
     E = [float(e) for e in sp['E']]
+    n_layers = float(sp.get('n_layers', 2.0))
+
+    def pad_of(hmax_ub):
+        return 2.0 * n_layers * rs * hmax_ub / c0 if periodic else 0.0
+
     if sp.get('huge'):
         E = [3000.0, 3000.0, 3000.0]
         notes.append('huge')
+    elif 'long' in env:
+        E = [70000.0 + E[0], min(E[1], 3.0), 1.0] if dim < 3 else \
+            [3000.0 + E[0], 3000.0, 3000.0]
     else:
-        while not extent_ok(cls, knobs, dim, E, c0, rs, hmax, hmin) and \
-                max(E[:dim]) > 1e-3:
+        while not extent_ok(cls, knobs, dim, E, c0, rs, hmax, hmin,
+                            pad_of(hmax)) and max(E[:dim]) > 1e-3:
             E = [e * 0.5 for e in E]
+    unbounded = bool(sp.get('huge')) or 'long' in env
     lo = [sp['offset'] if a < dim else 0.0 for a in range(3)]
+    if 'oop' in env:
+        for a in range(dim, 3):
+            lo[a] = sp['oopv'][a - 1]
     size = [E[a] * c0 if a < dim else 0.0 for a in range(3)]
     # non-lattice arrays first: they define the predicted grid origin
     pts = [None] * len(ns)
@@ -553,7 +751,7 @@ def materialize(sp):
     drift = [0.0]      # relative moves accumulate: widen the box
 
     def fits(bs):
-        if sp.get('huge'):
+        if unbounded:
             return True
         act = [b for b in bs if b['n'] > 0]
         if not act:
@@ -565,8 +763,14 @@ def materialize(sp):
             return False
         return extent_ok(cls, knobs, dim, Ed, c0, rs,
                          max(b['mxl'] for b in act),
-                         min(b['mnl'] for b in act))
+                         min(b['mnl'] for b in act),
+                         pad_of(max(b['mxu'] for b in act)))
 
+    cache = bool(sp['cache'])
+    cache_now = cache and cls != 'DictBoxSortNNPS'
+    switched = False
+    h_changes = sp['hmode'] != 'const'   # scaleh steps are added below
+    dom_has = [sum(ns) > 0]   # particles present at the last domain update
     steps = []
     for q, st_ in enumerate(sp['steps']):
         j = st_['arr'] % len(arrays)
@@ -575,6 +779,20 @@ def materialize(sp):
         op = st_['op']
         g, s = st_['g'], st_['s']
         i0 = 1000 * (q + 1)
+        if op == 'usecache':
+            if cls == 'DictBoxSortNNPS':
+                op = 'noop'       # documented: this class cannot cache
+            else:
+                cache_now = not cache_now
+                switched = True
+                steps.append({'op': 'usecache', 'arr': j, 'on': cache_now})
+                continue
+        if op == 'noop':
+            steps.append({'op': 'noop', 'arr': j})
+            dom_has[0] = sum(b['n'] for b in bnd) > 0
+            continue
+        if op == 'scaleh' and knobs.get('fixed_h'):
+            op = 'jitter'
         if op in ('jitter', 'teleport', 'face', 'scaleh', 'remove') and \
                 n == 0:
             op = 'refill'
@@ -642,18 +860,46 @@ def materialize(sp):
             step = {'op': 'move', 'arr': j, 'idx': idx, 'x': p[0],
                     'y': p[1], 'z': p[2], 'rel': False, 'kind': op}
         if step is not None:
+            if step['op'] == 'scaleh':
+                h_changes = True
+            # NNPS.update(): 'should be called when the particles have
+            # moved'; the cell size and hmin are the domain manager's, so
+            # update() alone is generated only while every h equals the
+            # one value the manager has seen (and never with ghosts)
+            if st_.get('nodomain') and not periodic and not h_changes and \
+                    dom_has[0] and \
+                    step['op'] in ('move', 'add', 'remove', 'empty'):
+                step['nodomain'] = True
+            else:
+                dom_has[0] = sum(b['n'] for b in bnd) > 0
             steps.append(step)
-    styles = [list(x) for x in sp['styles']][:len(steps) + 1]
-    cache = bool(sp['cache']) and cls != 'DictBoxSortNNPS'
-    if not cache:
-        styles = [[('ctx' if y == 'all' else y) for y in x] for x in styles]
-        styles = [[y for k, y in enumerate(x) if y not in x[:k]]
-                  for x in styles]
+    nph = len(steps) + 1
+    api = bool(sp.get('api'))
+    src = sp['styles_api'] if api and sp.get('styles_api') else sp['styles']
+    styles = [list(x) for x in src][:nph]
+    if not cache and not switched:
+        conv = {'all': 'ctx', 'raw': 'ctx', 'hall': 'gnp'}
+        styles = [[conv.get(y, y) for y in x] for x in styles]
+    if cls == 'DictBoxSortNNPS':
+        styles = [[('ctx' if y == 'ext' else y) for y in x] for x in styles]
+    styles = [[y for k, y in enumerate(x) if y not in x[:k]] for x in styles]
     case = {'cls': cls, 'dim': dim, 'rs': rs, 'knobs': knobs,
             'sort_gids': bool(sp['sort_gids']), 'gids': bool(sp['gids']),
             'cache': bool(sp['cache']), 'threads': sp['threads'],
             'pair_order': sp['pair_order'], 'arrays': arrays,
             'steps': steps, 'styles': styles, 'notes': sorted(set(notes))}
+    if api and not sp.get('qopts_off'):
+        case['pair_mod'] = [int(m) for m in sp.get('pair_mod', [])][:nph]
+        case['qorder'] = int(sp.get('qorder', 0))
+        case['shared_nb'] = bool(sp.get('shared_nb'))
+    if periodic:
+        per = [bool(sp['per'] >> k & 1) and k < dim for k in range(3)]
+        if not any(per):
+            per[0] = True
+        case['domain'] = {'per': per, 'n_layers': n_layers, 'lo': lo,
+                          'hi': [lo[k] + size[k] for k in range(3)]}
+    if 'long' in env:
+        case['long'] = True
     relabel(case)
     return case
 
@@ -666,12 +912,17 @@ def repair(sp, tg, e):
         sp['steps'] = []
         sp['styles'] = sp['styles'][:1]
         return True
-    order = ['cache_gnp_first', 'threads_gt1', 'sort_gids', 'cache',
+    order = ['qopts', 'nodomain', 'long', 'periodic', 'tiny_h', 'oop',
+             'cache_gnp_first', 'threads_gt1', 'sort_gids', 'cache',
              'far_offset', 'multi_decade', 'empty', 'no_particles',
              'point_extent', 'zero_extent', 'multi_array']
     pick = None
     for x in want:
-        if x.startswith('op:'):
+        if x.startswith('sty:'):
+            pick = x
+            break
+    for x in want:
+        if pick is None and x.startswith('op:'):
             pick = x
             break
     if pick is None:
@@ -693,13 +944,25 @@ def repair(sp, tg, e):
         return False
     degenerate = ('coincident', 'single', 'empty', 'collinear', 'coplanar',
                   'cluster', 'lattice')
-    if pick.startswith('op:'):
+    if pick.startswith('sty:'):
+        y = pick[4:]
+        sp['styles_api'] = [[('ctx' if z == y else z) for z in ph]
+                            for ph in sp.get('styles_api', [])]
+    elif pick == 'qopts':
+        sp['qopts_off'] = True
+    elif pick == 'nodomain':
+        sp['steps'] = [dict(s, nodomain=False) for s in sp['steps']]
+    elif pick in ('long', 'periodic', 'tiny_h', 'oop'):
+        sp['env_off'] = sorted(set(sp.get('env_off', [])) |
+                               set([pick[:4] if pick == 'tiny_h' else pick]))
+    elif pick.startswith('op:'):
         op = pick[3:]
         kinds = {'move': ('jitter', 'teleport', 'face'),
                  'add': ('add', 'refill', 'jitter', 'teleport', 'face',
                          'scaleh', 'remove'),
                  'scaleh': ('scaleh',), 'remove': ('remove',),
-                 'empty': ('empty',)}[op]
+                 'empty': ('empty',), 'noop': ('noop', 'usecache'),
+                 'usecache': ('usecache',)}[op]
         if op in ('move', 'add'):
             # these arise from fall-backs too: drop the history
             sp['steps'] = []
@@ -879,6 +1142,15 @@ def check(case):
         labels.add('multi_decade_h')
     if steps:
         labels.add('history')
+    for tname, lab in (('oop', 'oop_const'), ('periodic', 'periodic_domain'),
+                       ('tiny_h', 'tiny_h'), ('long', 'long_domain')):
+        if tname in tg:
+            labels.add(lab)
+    dom = case.get('domain')
+    pair_mod = list(case.get('pair_mod') or [])
+    qorder = int(case.get('qorder', 0))
+    shared_nb = bool(case.get('shared_nb'))
+    nnbr0 = {1: 10, 2: 60, 3: 120}[dim]
     if eff_cache and threads > 1:
         labels.add('cache_threads_gt1')
     if sort_gids:
@@ -903,16 +1175,27 @@ def check(case):
             pas.append(pa)
         return pas
 
-    def construct(pas, use_cache):
+    def construct(pas, use_cache, with_domain=True):
         set_number_of_threads(threads)
+        kw = dict(knobs)
+        if dom and with_domain:
+            kw['domain'] = N.DomainManager(
+                xmin=dom['lo'][0], xmax=dom['hi'][0], ymin=dom['lo'][1],
+                ymax=dom['hi'][1], zmin=dom['lo'][2], zmax=dom['hi'][2],
+                periodic_in_x=bool(dom['per'][0]),
+                periodic_in_y=bool(dom['per'][1]),
+                periodic_in_z=bool(dom['per'][2]),
+                n_layers=float(dom.get('n_layers', 2.0)))
         return K(dim=dim, particles=pas, radius_scale=rs, cache=use_cache,
-                 sort_gids=sort_gids, **knobs)
+                 sort_gids=sort_gids, **kw)
 
     def snapshot(pas):
         out = []
         for pa in pas:
-            out.append(dict(x=pa.x.copy(), y=pa.y.copy(), z=pa.z.copy(),
-                            h=pa.h.copy(), gid=pa.gid.copy()))
+            # all particles: periodic ghosts (not 'real') are sources and
+            # destinations like any other particle
+            out.append(dict((k, pa.get(k, only_real_particles=False).copy())
+                            for k in ('x', 'y', 'z', 'h', 'gid')))
         return out
 
     def oracle(S, d, s):
@@ -927,7 +1210,7 @@ def check(case):
         alw = ~(d2 > c2 * (1 + 8 * EPS))
         return req, alw, d2, c2
 
-    def verify(got, i, d, s, req, alw, S, how, phase, d2, c2):
+    def verify(got, i, d, s, req, alw, S, how, phase, d2, c2, srt=True):
         ns = len(S[s]['x'])
         ex = {'phase': 'initial' if phase == 0 else 'post_update'}
         where = 'phase %d %s dst=a%d[%d] src=a%d' % (phase, how, d, i, s)
@@ -953,10 +1236,12 @@ def check(case):
                                              c2[i, j], got.size), ex,
                  expected=np.nonzero(req[i])[0].tolist(),
                  observed=got.tolist())
-        if sort_gids and got.size > 1:
+        if sort_gids and srt and got.size > 1:
             g = S[s]['gid'][got].astype(np.int64)
             key = g if gids else got.astype(np.int64)
-            if not (np.diff(key) > 0).all():
+            # periodic ghosts carry the gid of their original: ties
+            df = np.diff(key)
+            if not ((df >= 0) if (dom and gids) else (df > 0)).all():
                 fail('unsorted', '%s: sort_gids=True but order is %s (gids '
                      '%s)' % (where, got.tolist(), g.tolist()), ex)
         if 0 < nreq < ns:
@@ -970,7 +1255,7 @@ def check(case):
             G[np.repeat(np.arange(nd), lens), np.minimum(cat, ns - 1)] = True
         return G
 
-    def verify_pair(res, d, s, req, alw, S, how, phase, d2, c2):
+    def verify_pair(res, d, s, req, alw, S, how, phase, d2, c2, srt=True):
         """All queries of one (dst, src) pair at once; the per-query
         routine is used only to describe a failure."""
         nd, ns = req.shape
@@ -988,16 +1273,17 @@ def check(case):
                 if int(G.sum()) != tot or (G & ~alw).any() or \
                         (req & ~G).any():
                     ok = False
-                elif sort_gids and tot > 1:
+                elif sort_gids and srt and tot > 1:
                     key = S[s]['gid'][cat].astype(np.int64) if gids else cat
                     same = rows[1:] == rows[:-1]
-                    if (np.diff(key)[same] <= 0).any():
+                    df = np.diff(key)[same]
+                    if ((df < 0) if (dom and gids) else (df <= 0)).any():
                         ok = False
         elif req.any():
             ok = False
         if not ok:
             for i in range(nd):
-                verify(res[i], i, d, s, req, alw, S, how, phase, d2, c2)
+                verify(res[i], i, d, s, req, alw, S, how, phase, d2, c2, srt)
             raise AssertionError('bulk and per-query verdicts differ')
         nreq = req.sum(axis=1)
         if ((nreq > 0) & (nreq < ns)).any():
@@ -1018,33 +1304,116 @@ def check(case):
             pr = [(d, s) for s in range(na) for d in range(na)]
         return pr
 
-    def query_all(nps, pas, S, phase, sty, orc):
+    def run_styles(sty, use_cache):
+        """Styles that need the cache fall back when it is off."""
+        if not use_cache:
+            conv = {'all': 'ctx', 'raw': 'ctx', 'hall': 'gnp'}
+            sty = [conv.get(y, y) for y in sty]
+        if cls == 'DictBoxSortNNPS':
+            sty = [('ctx' if y == 'ext' else y) for y in sty]
+        return [y for k, y in enumerate(sty) if y not in sty[:k]] or ['ctx']
+
+    def q_order(nd):
+        if not qorder:
+            return range(nd)
+        return list(range(nd - 1 - (nd % 2 == 1), 0, -2)) + \
+            list(range(0, nd, 2))
+
+    def query_all(nps, pas, S, phase, sty, orc, nb, use_cache):
         """Run the styles; returns {(d,s): [arrays]} of the last style."""
         na = len(pas)
-        nb = UIntArray()
         last = {}
+        pm = pair_mod[phase] if phase < len(pair_mod) else 0
+        if pm:
+            labels.add('pairs_skipped')
+        if qorder:
+            labels.add('query_permuted')
         for how in sty:
             labels.add('style:' + how)
-            for (d, s) in pair_list(na):
+            for pi, (d, s) in enumerate(pair_list(na)):
+                if pm and pi % 3 == pm - 1 and na > 1:
+                    continue
                 nd = len(S[d]['x'])
+                ns_ = len(S[s]['x'])
                 req, alw, d2, c2 = orc[(d, s)]
+                gnp = nps.get_nearest_particles
+                out = nb
                 if how == 'ctx':
                     nps.set_context(s, d)
                 elif how == 'all':
                     nps.set_context(s, d)
                     nps.cache[d * na + s].find_all_neighbors()
-                res = []
-                gnp = nps.get_nearest_particles
-                arr = nb.get_npy_array
-                for i in range(nd):
-                    gnp(s, d, i, nb)
-                    res.append(arr()[:nb.length].copy())
-                verify_pair(res, d, s, req, alw, S, how, phase, d2, c2)
-                last[(d, s)] = res
+                elif how == 'hall':
+                    for i in range(0, nd, 2):
+                        gnp(s, d, i, nb)
+                        verify(nb.get_npy_array()[:nb.length].copy(), i, d,
+                               s, req, alw, S, how, phase, d2, c2)
+                    nps.cache[d * na + s].find_all_neighbors()
+                elif how == 'raw':
+                    nps.set_context(s, d)
+                    cch = nps.cache[d * na + s]
+
+                    def gnp(s_, d_, i_, nb_, _c=cch):
+                        _c.get_neighbors(s_, i_, nb_)
+                elif how == 'ext':
+                    cch = N.NeighborCache(nps, d, s)
+                    cch.update()
+                    nps.set_context(s, d)
+
+                    def gnp(s_, d_, i_, nb_, _c=cch):
+                        _c.get_neighbors(s_, i_, nb_)
+                elif how == 'pre':
+                    out = UIntArray()
+                    out.reserve(ns_ + 8)
+
+                    def gnp(s_, d_, i_, nb_):
+                        nps.get_nearest_particles_no_cache(s_, d_, i_, nb_,
+                                                           True)
+                elif how == 'bf':
+                    gnp = nps.brute_force_neighbors
+                res = [None] * nd
+                arr = out.get_npy_array
+                for i in q_order(nd):
+                    gnp(s, d, i, out)
+                    if how == 'pre':
+                        # prealloc: 'the neighbors are directly set in the
+                        # given array': data and length are what counts,
+                        # the numpy view of the array may be stale
+                        res[i] = np.fromiter(
+                            (out[q] for q in range(out.length)),
+                            dtype=np.uint32, count=out.length)
+                    else:
+                        res[i] = arr()[:out.length].copy()
+                verify_pair(res, d, s, req, alw, S, how, phase, d2, c2,
+                            how != 'bf')
+                cached = use_cache and how in ('ctx', 'gnp', 'all', 'raw',
+                                               'hall')
+                if cached and int(req.sum()) > nnbr0 * nd + 1024 * threads:
+                    labels.add('cache_growth')
+                if cached and shared_nb and nd > 1:
+                    # the array is now a view of the cached list of one
+                    # particle; an uncached query of another particle
+                    # through it must leave the cached lists alone
+                    i1 = list(q_order(nd))[-1]
+                    i0 = 0 if i1 else 1
+                    nps.get_nearest_particles_no_cache(s, d, i0, nb, False)
+                    verify(nb.get_npy_array()[:nb.length].copy(), i0, d, s,
+                           req, alw, S, how + '+uncached', phase, d2, c2)
+                    for i in (i1, i0):
+                        nps.get_nearest_particles(s, d, i, nb)
+                        verify(nb.get_npy_array()[:nb.length].copy(), i, d,
+                               s, req, alw, S, how + '+requery', phase, d2,
+                               c2)
+                    labels.add('view_then_uncached')
+                if how != 'bf':
+                    # (a pair at the cut-off may go either way in the
+                    # sqrt-based brute force: not part of the set
+                    # comparisons between cached/uncached/fresh answers)
+                    last[(d, s)] = res
         return last
 
-    def no_cache_all(nps, S, na):
-        nb = UIntArray()
+    def no_cache_all(nps, S, na, nb=None):
+        nb = nb if nb is not None else UIntArray()
         out = {}
         for (d, s) in pair_list(na):
             res = []
@@ -1102,12 +1471,27 @@ def check(case):
         except (MemoryError, ValueError, IndexError, OverflowError) as ex:
             fail('exception', 'constructor: %r' % ex)
         na = len(pas)
+        cur_cache = eff_cache
+        the_nb = UIntArray()
+        if shared_nb:
+            labels.add('shared_nbr_array')
         for phase in range(len(steps) + 1):
-            if phase > 0:
+            if phase > 0 and steps[phase - 1]['op'] == 'usecache':
+                # documented switch (upstream test_neighbor_cache): the
+                # caches are refreshed by the call itself, no update()
+                on = bool(steps[phase - 1]['on'])
+                labels.add('op:usecache')
+                labels.add('cache_switched_on' if on else
+                           'cache_switched_off')
+                nps.set_use_cache(on)
+                cur_cache = on and cls != 'DictBoxSortNNPS'
+            elif phase > 0:
                 stp = steps[phase - 1]
                 pa = pas[stp['arr']]
                 op = stp['op']
                 labels.add('op:' + op)
+                if op == 'add' and cur_cache:
+                    labels.add('cache_add')
                 if stp.get('kind') == 'refill':
                     labels.add('op:refill')
                 if op == 'move':
@@ -1142,7 +1526,10 @@ def check(case):
                     if n:
                         pa.remove_particles(np.arange(n))
                 try:
-                    nps.update_domain()
+                    if stp.get('nodomain'):
+                        labels.add('update_without_domain')
+                    else:
+                        nps.update_domain()
                     nps.update()
                 except RuntimeError as ex:
                     msg = str(ex)
@@ -1155,17 +1542,22 @@ def check(case):
                     fail('exception', 'update after %s: %r' % (op, ex),
                          {'phase': 'post_update'})
             S = snapshot(pas)
+            if dom and any(int((pa_.get('tag', only_real_particles=False)
+                                == 2).sum()) for pa_ in pas):
+                labels.add('periodic_ghosts')
             occupied(S)
             orc = {(d, s): oracle(S, d, s) for d in range(na)
                    for s in range(na)}
-            sty = list(styles[phase])
-            if not eff_cache:
-                sty = [y for y in sty if y != 'all'] or ['ctx']
-            last = query_all(nps, pas, S, phase, sty, orc)
+            sty = run_styles(list(styles[phase]), cur_cache)
+            last = query_all(nps, pas, S, phase, sty, orc, the_nb,
+                             cur_cache)
             ex = {'phase': 'initial' if phase == 0 else 'post_update'}
-            if eff_cache:
-                nc = no_cache_all(nps, S, na)
+            if cur_cache:
+                nc = no_cache_all(nps, S, na,
+                                  the_nb if shared_nb else None)
                 for key in nc:
+                    if key not in last:
+                        continue
                     i = same_sets(last[key], nc[key], len(S[key[0]]['x']),
                                   len(S[key[1]]['x']))
                     if i is not None:
@@ -1180,7 +1572,7 @@ def check(case):
                               gid=s_['gid']) for s_ in S]
                 fpas = make_pas(fdata)
                 try:
-                    fresh = construct(fpas, False)
+                    fresh = construct(fpas, False, with_domain=False)
                 except Exception as ex_:
                     fail('exception', 'constructing a fresh NNPS on the '
                          'final state: %r' % ex_, ex)
@@ -1421,7 +1813,7 @@ def run_shard(spec, ctx):
 
 def plan(ctx):
     quick = ctx['tier'] == 'quick'
-    per_class = 250 if quick else 15000
+    per_class = 230 if quick else 15000
     slices = 1 if quick else 8
     entries = list(ctx.get('known_open', []))
     extra = os.environ.get('VERIF_C01_KNOWN')   # development aid only
@@ -1453,11 +1845,20 @@ def plan(ctx):
                {'hmode': 'log', 'threads': 3}),
               ('CompOctree', 'CompressedOctreeNNPS', 'parallel',
                {'hmode': 'log', 'threads': 3})]
-    per = 120 if quick else 4000
+    # coverage-audit shard per class: the further query styles and one of
+    # the further environments in every case
+    strat += [(short, cls, 'ext', {'api': True, 'env_force': True})
+              for short, cls in CLASSES.items()]
+    # stencil shard per class: one missing cell of a 27-cell stencil shows
+    # in only ~5% of the general 3-D cases
+    strat += [(short, cls, 'stencil', {'dense': True})
+              for short, cls in CLASSES.items()]
+    per = {'ext': 90 if quick else 2000, 'stencil': 40 if quick else 1000}
     for short, cls, what, pin in strat:
         specs.append({
             'name': '%s-%s' % (short, what), 'cls': cls, 'component': cls,
-            'klass': {'class': cls}, 'max_examples': per,
+            'klass': {'class': cls},
+            'max_examples': per.get(what, 120 if quick else 4000),
             'exclude': [e for e in known if e['cls'] == cls],
             'omp': 4, 'pin': pin,
         })
